@@ -108,6 +108,15 @@ void run_c17(const Case &c) {
             if (wrote != expect) violation("ROUNDTRIP", "write #%zu returned %zu, expected the element count %zu", i, wrote, expect);
             model += chunk; off += bytes;
             note("write #%zu: overload %u, %zu bytes", i, (unsigned)o.a % 4, bytes);
+            if (o.c & 2) {
+                // size() is truthful while writing too, and leaves the position where it was
+                long before = f.tell();
+                size_t sz = f.size();
+                if (sz != model.size()) violation("SIZE", "while writing (mode %d) after chunk #%zu: size() = %zu, %zu bytes are in the file", wmode, i, sz, model.size());
+                if (f.tell() != before) violation("SIZE", "while writing: size() moved the position from %ld to %ld", before, f.tell());
+                if (wmode < 2 && before != (long)model.size()) violation("POSITION", "while writing: tell() = %ld after %zu bytes were written", before, model.size());
+                label("size_during_write");
+            }
             count_ops();
         }
         if (wops.size() >= 2) label("several_chunks");
